@@ -143,7 +143,12 @@ REJECTS = [
  ("bias", "harmonic {\n name b\n colvars nosuch\n centers 0.5\n forceConstant 2.0\n}\n"),
  ("bias", "harmonicWalls {\n name b\n colvars r\n lowerWalls 1.0\n upperWalls -1.0\n lowerWallConstant 2.0\n upperWallConstant 2.0\n}\n"),
  ("bias", "histogram {\n name b\n colvars r\n histogramGrid {\n  lowerBoundary 2.0\n  upperBoundary -2.0\n  width 0.5\n }\n}\n"),
+ # a bias that needs total forces from a variable that cannot give them, listed before one that already gives them to another bias
+ ("bias", "abf {\n name b\n colvars cn r\n fullSamples 2\n}\n"),
+ ("bias", "harmonic {\n name b\n colvars cn r\n centers 0.5 0.5\n forceConstant 2.0\n writeTISamples on\n}\n"),
 ]
+TFPART = ("colvar {\n name cn\n coordNum {\n  group1 { atomNumbers 1 }\n  group2 { atomNumbers 2 3 }\n  cutoff 2.0\n }\n}\n"
+          "abf {\n name ab0\n colvars r\n fullSamples 1\n integrate off\n}\n")
 VALID2 = ("colvar {\n name s\n width 0.5\n distanceZ {\n  main { atomNumbers 3 }\n  ref { dummyAtom (0.0, 0.0, 0.0) }\n }\n}\n"
           "harmonic {\n name hs\n colvars s\n centers -0.3\n forceConstant 3.0\n}\n")
 
@@ -160,6 +165,7 @@ def timeline(rng_seed, rejects, work, tag):
         for s in range(n):
             for a in range(NATOMS):
                 L.append(pos(a, 0.0, 0.0, rng.uniform(-1, 1)))
+                L.append(tf(a, 0.0, 0.0, rng.uniform(-2, 2)))
             L.append("m.step"); probes.append(len(L))
             L.append("m.forces"); probes.append(len(L))
             L.append("m.counts"); probes.append(len(L))
@@ -171,7 +177,9 @@ def timeline(rng_seed, rejects, work, tag):
             return len(L)
         return None
     vl = []
-    L.append(cfg(REF)); probes.append(len(L)); steps(2)
+    # (the first valid configuration also has a bias that reads total forces and a variable that cannot provide them: a rejected bias naming
+    # both must not take anything away from the valid one)
+    L.append(cfg(REF + TFPART)); probes.append(len(L)); steps(2)
     vl.append(reject()); steps(2)
     vl.append(reject())
     L.append(cfg(VALID2)); probes.append(len(L)); steps(3)
